@@ -451,7 +451,7 @@ func C12() *check.Property {
 		Title:    "Pipelines are reusable recipes: subscriptions and operator values independent",
 		Patterns: cat(CorePatterns, PluginPkgs, []string{PromPkg}, RatePkgs),
 		Scope:    []string{ro},
-		Rules:    []check.Rule{ruleStateLevel(), ruleLazySource(), ruleSubscribeMultiplicity(), ruleFreshPerApplication(), ruleObservableParamUsed()},
+		Rules:    []check.Rule{ruleStateLevel(), ruleLazySource(), ruleSubscribeMultiplicity(), ruleFreshPerApplication(), ruleObservableParamUsed(), ruleBuildTimeState()},
 		Explanation: "Static discipline check (AST + types). Operators are closures at three levels: constructor (once per operator value), application literal func(source) (once per pipeline) " +
 			"and subscribe closure (once per subscription). STATE-LEVEL proves that no write inside a deeper level targets a variable declared at an outer level, so every subscription starts from fresh state and " +
 			"applications do not influence each other; LAZY-SOURCE proves no Subscribe/Connect/Collect runs outside a subscribe closure; SUBSCRIBE-MULTIPLICITY and FRESH-PER-APPLICATION cover at-most-once subscription of " +
